@@ -150,6 +150,9 @@ func (dist *PowerLawDistribution) ImportConfig(config ConfigDistribution, t Scal
   if parameters, ok := config.GetParametersAsFloats(); !ok {
     return fmt.Errorf("invalid config file")
   } else {
+    if len(parameters) != 2 {
+      return fmt.Errorf("invalid config file")
+    }
     alpha := NewScalar(t, parameters[0])
     xmin  := NewScalar(t, parameters[1])
 
